@@ -314,7 +314,7 @@ def program_cases(seed, tier):
     for g in range(nprog):
         rng = vsim.Rng(seed, "c10-prog", g)
         text = progen.gen_program(rng.fork("src"), size="small" if g % 2 else "heavy",
-                                  force=(("sizes",) if g % 4 == 0 else (("frag",) if g % 4 == 2 else ()))).encode()
+                                  force=(("sizes",) if g % 4 == 0 else (("frag",) if g % 4 == 2 else ())), finale=True).encode("latin-1")
         q = rng.choice(["-Q1", "-Q2", "-Q3"])
         for k in range(nplan):
             route = "exe" if k % 3 else "interp"
